@@ -42,7 +42,15 @@ def job(j):
         return info
     cols = list(base.columns)
     tr = runs.RunTrace(work, f"c04_{tid}")
-    tr.base(tid, base, cols, [])
+    import pandas as pd
+
+    base_plus = pd.concat([base.reset_index(drop=True), df.reset_index(drop=True)], axis=1)
+    tr.base(tid, base_plus, list(base_plus.columns), [])
+    # the caller's table carries a non-default index in half of the populations
+    if rnd.random() < 0.5:
+        df = df.copy()
+        df.index = pd.Index(rnd.sample(range(100), len(df))) if rnd.random() < 0.5 else pd.Index(list(range(len(df)))[::-1])
+        info["index"] = [str(x) for x in df.index]
     dt = [t for t in gs.default_targets() if t in cols]
     plans = []
     for t in rnd.sample(dt, min(4, len(dt))):
@@ -77,6 +85,15 @@ def job(j):
     d2 = df.copy()
     d2["zzz_unused_col"] = np.arange(len(df), dtype=float)
     d2["another_unused_m"] = 1.5
+    # unused columns that are time-unit siblings of rule nodes (inconsistent values): the rule must win
+    import re
+
+    sib = [c for c in cols if re.search(r"_[ym]$", c) and c not in df.columns and c in gs.env(date)[1]]
+    for c in rnd.sample(sib, min(2, len(sib))):
+        other = c[:-1] + ("y" if c.endswith("m") else "m")
+        if other not in cols and other not in d2.columns:
+            d2[other] = 777.0
+            info.setdefault("sibling_cols", []).append(other)
     k += 1
     try:
         res = gs.compute(d2, date, targets=some)
